@@ -484,6 +484,42 @@ class Winnow:
     def p_cut_err(self, s, st, a):
         return [(g, o if o[0] != "err" else err("Cut", o[2], o[3])) for g, o in self.run(a, s, st)]
 
+    def p_peek(self, s, st, a):
+        """peek: the inner result, with the input put back where it was (on success and on failure)"""
+        res = []
+        for g, o in self.run(a, s, st):
+            if o[0] == "ok":
+                res.append((g, ok(o[1], s)))
+            elif o[0] == "err":
+                res.append((g, err(o[1], o[2], s)))
+            else:
+                res.append((g, o))
+        return res
+
+    def p_opt(self, s, st, a):
+        """opt: Some(value) | None on Backtrack (input reset); Cut errors pass"""
+        res = []
+        for g, o in self.run(a, s, st):
+            if o[0] == "ok":
+                res.append((g, ok(Adt("Option", "Some", [o[1]]), o[2])))
+            elif o[0] == "err" and o[1] == "Backtrack":
+                res.append((g, ok(Adt("Option", "None"), s)))
+            else:
+                res.append((g, o))
+        return res
+
+    def p_not(self, s, st, a):
+        """not: succeeds (unit, no input consumed) exactly when the inner parser backtracks"""
+        res = []
+        for g, o in self.run(a, s, st):
+            if o[0] == "ok":
+                res.append((g, err("Backtrack", EMPTY_CTX, s)))
+            elif o[0] == "err" and o[1] == "Backtrack":
+                res.append((g, ok((), s)))
+            else:
+                res.append((g, o))
+        return res
+
     def ctx_push(self, ctx, c):
         return umap(lambda t: t + (c,), ctx)
 
@@ -760,6 +796,9 @@ def register(I):
     R["combinator::delimited"] = ctor("delimited")
     R["combinator::separated_pair"] = ctor("separated_pair")
     R["combinator::cut_err"] = ctor("cut_err")
+    R["combinator::peek"] = ctor("peek")
+    R["combinator::opt"] = ctor("opt")
+    R["combinator::not"] = ctor("not")
     R["token::literal"] = ctor("literal")
     R["token::one_of"] = ctor("one_of")
     R["token::take_while"] = ctor("take_while", pick=lambda a, i: (rng_of(a[0]), a[1]))
